@@ -43,6 +43,10 @@ def main(tier):
                 print("sensitivity %s: outside the properties' stated domain "
                       "(skipped): %s" % (name, meta.get("note", "")[:120]))
                 continue
+            if meta.get("neutralised_by"):
+                print("sensitivity %s: harmless on the current tree (skipped)"
+                      ": %s" % (name, meta["neutralised_by"][:160]))
+                continue
             import re as _re
             checks = meta.get("detected_by") or [
                 _re.search(r"C\d\d", meta["property"]).group(0)]
